@@ -75,6 +75,18 @@ def check(seed):
             if s[n.position:n.position + len(txt)] != txt:
                 out.append(('node-slice', 'in %r the node %r at %r is not the slice of the source' % (s, txt, n.position)))
                 break
+        # text leaves (tokens kept raw in content lists: verbatim bodies, text runs) record their offsets too
+        def leaves(e):
+            for c in e.all:
+                if isinstance(c, TexExpr) and not isinstance(c, TexText):
+                    yield from leaves(c)
+                else:
+                    yield c._text if isinstance(c, TexText) else c
+        for t in leaves(soup.expr):
+            p = getattr(t, 'position', None)
+            if isinstance(p, int) and p >= 0 and s[p:p + len(str(t))] != str(t):
+                out.append(('leaf-slice', 'in %r the text %r recorded at %r is not the slice of the source' % (s, str(t), p)))
+                break
     elif PROP == 'C03':
         out += check_search(s, t, soup)
     elif PROP == 'C04':
